@@ -224,8 +224,11 @@ def ev(e, c, ctx=-1):
             s += x
         return (s & mask(w), w)
     if k == "not":
+        # the operand is extended to the width of the enclosing expression before it is inverted
         cw = max(width(e[1], c), ctx)
         v, w = ev(e[1], c, cw)
+        if w < cw:
+            v, w = _ext(v, w, cw, signed(e[1], c)), cw
         return ((~v) & mask(w), w)
     if k == "in":
         lhs = e[1]
@@ -276,6 +279,13 @@ def ev(e, c, ctx=-1):
             return (((lv << rv) & mask(w)) if rv < w else 0, w)
         if op == ">>":
             return ((lv >> rv) if rv < w else 0, w)
+        if op in ("/", "%") and sg and rv != 0:
+            # both operands signed: SystemVerilog divides towards zero, the remainder takes the sign of the dividend
+            a, b = to_signed(lv, w), to_signed(rv, w)
+            q = abs(a) // abs(b)
+            if (a < 0) != (b < 0):
+                q = -q
+            return ((q if op == "/" else a - b * q) & mask(w), w)
         if op == "/":
             return ((lv // rv) if rv != 0 else mask(w), w)
         if op == "%":
